@@ -487,6 +487,202 @@ fn registration(ctx: &mut Ctx) {
     }
 }
 
+/// "Or else a fresh unique one": the identities a socket generates share a namespace with the ones
+/// peers announce. An anonymous peer joins and the application learns its generated identity G from
+/// the monitor; a peer then announces an identity next to G (G+-1..4 as a big- or little-endian
+/// number of the same length: what a counter, a clock or a sequence would hand out next), and
+/// further anonymous peers join. Every registration must stay distinct and the announcing peer must
+/// stay a peer under the identity it announced.
+fn predicted_identity(ctx: &mut Ctx) {
+    world::swarm(ctx, SwarmOpts::default());
+    let kind = ALL_KINDS[(ctx.idx % 9) as usize];
+    let delta = 1 + ctx.plan(4) as u8;
+    let how = ctx.plan(3);
+    let nlate = 1 + ctx.plan(5) as usize;
+    let late_dialled: Vec<bool> = (0..nlate).map(|_| ctx.plan(4) == 0).collect();
+    let peer_type = kind.peers()[0];
+    #[derive(Default)]
+    struct R {
+        generated: Vec<u8>,
+        guess: Vec<u8>,
+        ids: Vec<(String, Vec<u8>)>,
+        announcer_conn: Option<(std::sync::Arc<rt::net::Conn>, usize)>,
+        announcer_before: usize,
+        announcer_after: usize,
+        others_after: usize,
+        routed: bool,
+        announcer_probe: usize,
+        done: bool,
+    }
+    let r = Rc::new(RefCell::new(R::default()));
+    let r2 = r.clone();
+    let late2 = late_dialled.clone();
+    rt::task::spawn_local("app", async move {
+        let mut sock = AnySock::new(kind, None);
+        let mut mon = sock.monitor();
+        let ep = sock.bind("tcp://127.0.0.1:0").await.expect("bind").to_string();
+        let mut keep: Vec<RawPeer> = Vec::new();
+        let mut keepl = Vec::new();
+        let mut take_ids = |mon: &mut futures::channel::mpsc::Receiver<SocketEvent>, who: &str, r: &Rc<RefCell<R>>| {
+            let mut last = None;
+            while let Ok(Some(ev)) = mon.try_next() {
+                match ev {
+                    SocketEvent::Accepted(_, id) | SocketEvent::Connected(_, id) => {
+                        r.borrow_mut().ids.push((who.to_string(), id.as_ref().to_vec()));
+                        last = Some(id.as_ref().to_vec());
+                    }
+                    _ => {}
+                }
+            }
+            last
+        };
+        // the anonymous probe
+        let mut probe = RawPeer::connect(&ep).expect("connect");
+        let _ = probe.hello(peer_type, None).await;
+        rt::task::idle().await;
+        keep.push(probe);
+        let Some(g) = take_ids(&mut mon, "the anonymous probe", &r2) else {
+            return world::park().await;
+        };
+        // the guess
+        let mut guess = g.clone();
+        let bump = |v: &mut Vec<u8>, up: bool, le: bool, by: u8| {
+            let n = v.len();
+            let mut carry = by as i16 * if up { 1 } else { -1 };
+            for k in 0..n {
+                let i = if le { k } else { n - 1 - k };
+                let x = v[i] as i16 + carry;
+                v[i] = x.rem_euclid(256) as u8;
+                carry = x.div_euclid(256);
+                if carry == 0 {
+                    break;
+                }
+            }
+        };
+        match how {
+            0 => bump(&mut guess, true, false, delta),
+            1 => bump(&mut guess, true, true, delta),
+            _ => bump(&mut guess, false, false, delta),
+        }
+        if guess.is_empty() || guess.len() > 255 {
+            return world::park().await;
+        }
+        r2.borrow_mut().generated = g;
+        r2.borrow_mut().guess = guess.clone();
+        let mut ann = RawPeer::connect(&ep).expect("connect");
+        let _ = ann.hello(peer_type, Some(&guess)).await;
+        if matches!(kind, Kind::Pub | Kind::Xpub) {
+            ann.conn.set_io(1 - ann.side, |io| io.wyield_pm = 0);
+            ann.conn.set_cap(1 - ann.side, 1 << 40);
+        }
+        rt::task::idle().await;
+        take_ids(&mut mon, "the announcing peer", &r2);
+        r2.borrow_mut().announcer_conn = Some((ann.conn.clone(), 1 - ann.side));
+        // further anonymous peers
+        let mut late_conns = Vec::new();
+        for (k, dialled) in late2.iter().enumerate() {
+            if *dialled {
+                let (l, lep) = RawListener::bind("tcp://127.0.0.1:0").expect("listen");
+                let acc = rt::task::spawn_local("acceptor", async move {
+                    let Ok(mut p) = l.accept().await else { return None };
+                    let _ = p.hello(peer_type, None).await;
+                    Some((p, l))
+                });
+                let _ = rt::future::or_idle(sock.connect(&lep)).await;
+                if let Ok(Some((p, l))) = acc.await {
+                    late_conns.push((p.conn.clone(), 1 - p.side));
+                    keep.push(p);
+                    keepl.push(l);
+                }
+            } else {
+                let mut p = RawPeer::connect(&ep).expect("connect");
+                let _ = p.hello(peer_type, None).await;
+                late_conns.push((p.conn.clone(), 1 - p.side));
+                keep.push(p);
+            }
+            rt::task::idle().await;
+            take_ids(&mut mon, &format!("late anonymous peer {k}"), &r2);
+        }
+        // the announcing peer is still a peer, under its identity
+        let msgs = |c: &std::sync::Arc<rt::net::Conn>, side: usize| rc::parse_stream(&c.tap_from(side)).messages().len();
+        r2.borrow_mut().announcer_before = msgs(&ann.conn, 1 - ann.side);
+        let others_before: usize = late_conns.iter().map(|(c, s)| msgs(c, *s)).sum();
+        if kind == Kind::Router {
+            let _ = sock.send(to_zmq(&[guess.clone(), b"for-the-announcer".to_vec()])).await;
+            r2.borrow_mut().routed = true;
+        }
+        if kind.has_recv() && kind != Kind::Req {
+            let mut m: Vec<Vec<u8>> = if kind == Kind::Rep { vec![vec![]] } else { vec![] };
+            let mut body = tagged(77, 0, &[3]);
+            if kind == Kind::Xpub {
+                body[0].insert(0, 1);
+            }
+            m.extend(body);
+            let _ = ann.send_msg(&m).await;
+            while let Some(res) = rt::future::or_idle(sock.recv()).await {
+                match res {
+                    Ok(m) => {
+                        if world::tag_of(&from_zmq(&m)) == Some((77, 0)) {
+                            r2.borrow_mut().announcer_probe += 1;
+                        }
+                        if kind == Kind::Rep {
+                            let _ = sock.send(to_zmq(&[b"r".to_vec()])).await;
+                        }
+                    }
+                    Err(_) => break,
+                }
+            }
+        } else {
+            r2.borrow_mut().announcer_probe = 1;
+        }
+        rt::task::idle().await;
+        r2.borrow_mut().announcer_after = msgs(&ann.conn, 1 - ann.side);
+        r2.borrow_mut().others_after = late_conns.iter().map(|(c, s)| msgs(c, *s)).sum::<usize>() - others_before;
+        r2.borrow_mut().done = true;
+        world::park().await;
+        drop(sock);
+        drop(keep);
+        drop(keepl);
+        drop(ann);
+    });
+    let end = ctx.sim.run(400_000);
+    let o = r.borrow();
+    let tag = format!("{}: an anonymous peer was registered as {}, a peer then announced {} and {nlate} more anonymous peer(s) joined (dialled: {:?})", kind.name(), world::hex(&o.generated), world::hex(&o.guess), late_dialled);
+    if end == rt::RunEnd::Budget {
+        ctx.violation("no_quiescence", format!("{tag}: no quiescence"));
+    }
+    ctx.check_panics();
+    if o.done {
+        for i in 0..o.ids.len() {
+            for j in 0..i {
+                if o.ids[i].1 == o.ids[j].1 {
+                    ctx.violation("generated_identity_not_fresh", format!("{tag}: {} and {} are both registered under identity {}", o.ids[j].0, o.ids[i].0, world::hex(&o.ids[i].1)));
+                }
+            }
+        }
+        if !o.ids.iter().any(|(w, id)| w == "the announcing peer" && *id == o.guess) {
+            ctx.violation("registered_under_other_identity", format!("{tag}: no admission event carries the announced identity"));
+        }
+        if let Some((c, side)) = &o.announcer_conn {
+            if c.released(*side) {
+                ctx.violation("admitted_peer_dropped", format!("{tag}: the socket closed its side of the announcing peer's connection although nothing failed"));
+            }
+        }
+        if o.announcer_probe != 1 {
+            ctx.violation("admitted_peer_traffic", format!("{tag}: the announcing peer's probe message was delivered {} times", o.announcer_probe));
+        }
+        if o.routed && (o.announcer_after != o.announcer_before + 1 || o.others_after != 0) {
+            ctx.violation("routed_to_another_peer", format!("{tag}: a message addressed to the announced identity reached the announcing peer {} times and the later anonymous peers {} times", o.announcer_after - o.announcer_before, o.others_after));
+        }
+        ctx.nontrivial();
+    } else if end == rt::RunEnd::Quiescent && ctx.sim.rt.panics.borrow().is_empty() && !o.generated.is_empty() {
+        ctx.violation("stuck", format!("{tag}: the scenario never completed"));
+    }
+    if ctx.want_sample {
+        ctx.out.sample = Some(tag);
+    }
+}
+
 /// side check (a pure enumeration, labelled as such): all 144 compatibility queries
 fn compat_table(ctx: &mut Ctx) {
     world::plain(ctx);
@@ -519,11 +715,12 @@ pub fn def() -> PropDef {
     PropDef {
         id: "C04",
         level: "fault_enumeration",
-        rule: "handshake: grid = local socket type (9) x peer Socket-Type (12 names, unknown, missing) x version {1.0,2.1,3.0,3.1,4.0} x mechanism {NULL,PLAIN,CURVE,unknown} x signature {ok, byte 0 wrong, byte 9 wrong} x identity {none, empty, 1, 255, 256 bytes} x first item {READY, other command, message} x side {accepted, connected} = 226800 scripted handshakes, each with drawn segmentation/schedule and, in half of the cases, drawn extra READY metadata (a short property, one 400-byte value, twenty properties, a property ahead of Socket-Type) that must decide nothing, and a drawn moment at which the monitor is installed (before bind, only after bind, or replaced after bind), compared with a reference admission predicate written from the statement and the RFC compatibility table (thorough: enumerated completely; quick: pseudo-random sample); observables: application message exchanged or not, monitor Accepted/AcceptFailed, connect() result, connection closed by the socket; registration: socket type (9) x 2..4 admissible peers, each announcing no identity, an empty one or a distinct non-empty one (1 byte, 255 bytes, leading zero byte, trailing zero bytes, white space), joining by connect-in at drawn times or by being dialled: exactly one admission event per peer, under the announced identity resp. pairwise distinct ones, no admitted connection closed by the socket, and each peer's traffic flows exactly once (probe delivered once / one copy per subscriber / n sends reach n peers); compat_table: the 144 SocketType::compatible queries (pure enumeration, a side check); distinct = distinct (configuration, plan, schedule, transport)",
+        rule: "handshake: grid = local socket type (9) x peer Socket-Type (12 names, unknown, missing) x version {1.0,2.1,3.0,3.1,4.0} x mechanism {NULL,PLAIN,CURVE,unknown} x signature {ok, byte 0 wrong, byte 9 wrong} x identity {none, empty, 1, 255, 256 bytes} x first item {READY, other command, message} x side {accepted, connected} = 226800 scripted handshakes, each with drawn segmentation/schedule and, in half of the cases, drawn extra READY metadata (a short property, one 400-byte value, twenty properties, a property ahead of Socket-Type) that must decide nothing, and a drawn moment at which the monitor is installed (before bind, only after bind, or replaced after bind), compared with a reference admission predicate written from the statement and the RFC compatibility table (thorough: enumerated completely; quick: pseudo-random sample); observables: application message exchanged or not, monitor Accepted/AcceptFailed, connect() result, connection closed by the socket; registration: socket type (9) x 2..4 admissible peers, each announcing no identity, an empty one or a distinct non-empty one (1 byte, 255 bytes, leading zero byte, trailing zero bytes, white space), joining by connect-in at drawn times or by being dialled: exactly one admission event per peer, under the announced identity resp. pairwise distinct ones, no admitted connection closed by the socket, and each peer's traffic flows exactly once (probe delivered once / one copy per subscriber / n sends reach n peers); predicted_identity: socket type (9) x an identity announced next to a generated one (+-1..4, big or little endian) x 1..5 later anonymous peers, accepted or dialled: all registrations pairwise distinct, the announcing peer keeps its connection, its traffic and (ROUTER) its address; compat_table: the 144 SocketType::compatible queries (pure enumeration, a side check); distinct = distinct (configuration, plan, schedule, transport)",
         assumptions: &["'known mechanism' is read as NULL, PLAIN or CURVE in the greeting, as the statement says (the library then performs the NULL handshake)", "the RFC table used by the oracle lists PAIR-PAIR, PUB/XPUB-SUB/XSUB, REQ-REP/ROUTER, DEALER-REP/DEALER/ROUTER, ROUTER-ROUTER, PUSH-PULL"],
         strata: vec![
             Stratum { name: "handshake", quick: 150_000, thorough: (GRID_SIZE) * 10, exhaustive: (false, true), run: handshake, what: "configuration grid of scripted handshakes vs the admission predicate" },
             Stratum { name: "registration", quick: 60_000, thorough: 3_000_000, exhaustive: (false, false), run: registration, what: "2..4 admissible peers per socket, identities none / empty / distinct edge shapes, accepted or dialled: registered once, under the announced or a unique identity, and still peers afterwards" },
+            Stratum { name: "predicted_identity", quick: 30_000, thorough: 2_000_000, exhaustive: (false, false), run: predicted_identity, what: "an anonymous peer's generated identity is learnt from the monitor, a peer announces a neighbouring value, more anonymous peers join: generated identities stay fresh, the announcing peer stays a peer under its identity" },
             Stratum { name: "compat_table", quick: 144, thorough: 144, exhaustive: (true, true), run: compat_table, what: "144 compatibility queries: total, symmetric, equal to the RFC table" },
         ],
     }
